@@ -237,7 +237,9 @@ int32_t jls_core_signal_def_align(struct jls_signal_def_s * def) {
     samples_per_data_u64 = round_up_to_multiple(samples_per_data_u64, sample_decimate_factor_u64);
 
     // a data block and a summary chunk must fit comfortably in a chunk payload
-    if ((samples_per_data_u64 > UINT32_MAX) || (((samples_per_data_u64 * sample_size) / 8) > PAYLOAD_SIZE_MAX)) {
+    // the writer and reader count the bits of a data block in 32 bits
+    if ((samples_per_data_u64 > UINT32_MAX) || ((samples_per_data_u64 * sample_size) > UINT32_MAX)
+            || (((samples_per_data_u64 * sample_size) / 8) > PAYLOAD_SIZE_MAX)) {
         JLS_LOGW("samples_per_data too big");
         return JLS_ERROR_PARAMETER_INVALID;
     }
